@@ -499,6 +499,9 @@ impl<T: Clone + Eq + Debug + Default> WrappedBlock<T> {
                     }));
                     lineleft -= w.saturating_sub(wpos);
                 }
+            } else {
+                // A fragment marker inside the word has no width; keep it at its place.
+                self.line.push(element);
             }
         }
         Ok(())
